@@ -4,6 +4,7 @@ from __future__ import annotations
 import copy
 import json
 import os
+import random
 import subprocess
 
 from .. import common as C
@@ -121,6 +122,19 @@ def seed_cases(rng, tier):
     for reg in regs:
         for axes in (["X", "Y", "Z"], ["Z", "Y", "X"], ["Y", "Z", "X"], ["X", "Y"]):
             cases.append({"kind": "metric", "metrics": reg, "axes": axes})
+    # a registration that lists a variable twice; queried from a position none of them is at, so that WHICH
+    # one is interpolated matters
+    for reg in ([[["X", "Y"], ["a_lc", "a_cl", "a_lc"]], [["Z"], ["dz_c"]]],
+                [[["X", "Y"], ["a_cl", "a_lc", "a_cl", "a_lc"]], [["Z"], ["dz_c"]]],
+                [[["X"], ["dx_l", "dx_o", "dx_l"]], [["Y"], ["dy_c"]], [["Z"], ["dz_c"]]]):
+        for axes in (["X", "Y", "Z"], ["X", "Y"]):
+            cases.append({"kind": "metric", "metrics": reg, "axes": axes})
+    # operations that leave `to` to the axis' default shift, on axes that have several staggered positions
+    from . import c01 as K1
+    pool = [c for c in K1.generate(random.Random(rng.randint(0, 10 ** 6)), "quick")
+            if c["call"]["to"] is None and any(len(ps) >= 3 for _, ps in c["ctor"]["coords"])]
+    for c in pool[:(10 if tier == "quick" else 60)]:
+        cases.append({"kind": "op", "case": c})
     return cases
 
 
